@@ -37,8 +37,13 @@ def body(src, head):
 
 def strip_comments(s):
     s = re.sub(r"/\*.*?\*/", "", s, flags=re.S)
+    # add-only verification hooks (`hook:` patches) are not part of the modelled behaviour
+    s = re.sub(r"^\s*#\s*ifdef\s+LIBOCCA_OCCA_VERIF\b.*?^\s*#\s*endif[^\n]*", "", s, flags=re.S | re.M)
     s = re.sub(r"^\s*#\s*include[^\n]*", "", s, flags=re.M)
-    return re.sub(r"//[^\n]*", "", s)
+    s = re.sub(r"//[^\n]*", "", s)
+    # the pool's backing buffers are made by makeBuffer(), or by makeOwnedBuffer() = makeBuffer() taken out
+    # of the device's ring of buffers (C01 repair); the byte counters are not affected
+    return s.replace("makeOwnedBuffer()", "makeBuffer()")
 
 
 def squeeze(s):
@@ -154,6 +159,12 @@ def gen():
     if nswap not in (0, 2) or rz.count(swap_stmt) + al.count(swap_stmt) != nswap:
         raise TranslateError("resize()/setAlignment() rebuild the reservation set inconsistently")
 
+    mem_api = squeeze(body(strip_comments(open(os.path.join(REPO, "src/core/memory.cpp")).read()), "occa::memory memory::clone"))
+    clone_empty = which(mem_api, {"empty": ["if(!modeMemory||!byte_size()){returnocca::memory();}"],
+                                  "throws": ["if(!modeMemory){returnocca::memory();}"]}, "memory::clone() of zero bytes")
+    if ".malloc(byte_size(),*this,properties())" not in mem_api:
+        raise TranslateError("memory::clone(): allocation statement not found")
+
     mal = squeeze(body(sdev, "modeMemory_t* device::malloc"))
     host = which(mal, {
         "counted": ['if(src&&props.get("use_host_pointer",false)){buf->ptr=(char*)const_cast<void*>(src);}else{buf->malloc(bytes);}'],
@@ -181,7 +192,8 @@ def gen():
            "    sweepAccumulatesGaps := %s," % b(sa == "gaps"),
            "    reserveComparesAligned := %s," % b(cmp_v == "aligned"),
            "    hostPtrCounted := %s," % b(host == "counted"),
-           "    setRebuiltAfterPacking := %s }" % b(nswap == 2),
+           "    setRebuiltAfterPacking := %s," % b(nswap == 2),
+           "    cloneEmptyReturnsEmpty := %s }" % b(clone_empty == "empty"),
            "", "end Occa.Gen", ""]
     h = write_if_changed(os.path.join(VERIF, "lean/OccaGen/PoolConsts.lean"), "\n".join(out))
     return {"PoolConsts": h}
